@@ -25,7 +25,7 @@ PROPS = {
     'C11': {'harnesses': [('c11_chan', 1.0)]},
     'C12': {'harnesses': [('c12_barrier', 1.0)]},
     'C13': {'harnesses': [('c13_mpmc', 1.0)]},
-    'C14': {'harnesses': [('c14_hazard', 1.0)]},
+    'C14': {'harnesses': [('c14_hazard', 0.65), ('c13_mpmc', 0.35)]},
     'C15': {'harnesses': [('c15_queues', 1.0)]},
     'C16': {'harnesses': [('c16_ring', 1.0)]},
     'C17': {'harnesses': [('c17_workq', 1.0)]},
@@ -48,7 +48,7 @@ RULES = {
     'C11': 'Bounded, unbounded, single-producer and multi channels and raw signals. Non-trivial: a receiver (or sender) blocked at least once.',
     'C12': 'count 1-5 fibers, 1-6 rounds back to back on one barrier, 1-4 kernel threads. Non-trivial: count>=2 and (>=2 kernel threads or >=2 rounds).',
     'C13': 'Threads push/trypop with node reuse through the reclaim callback; history checked for linearizability. Non-trivial: >=2 threads with overlapping operations.',
-    'C14': 'publish/validate/use/release/retire protocol on shared cells with 1-4 records x 1-3 slots. Non-trivial: a retire happened while another record held a validated protection.',
+    'C14': 'publish/validate/use/release/retire protocol on shared cells with 1-4 records x 1-3 slots (non-trivial: a retire happened while another record held a validated protection); and the MPMC FIFO built on hazard pointers, with reclaimed nodes handed back to the allocator in a third of the runs so that any dereference of a reclaimed node is a memory violation (non-trivial: >=2 threads with overlapping operations).',
     'C15': 'MPSC, SPSC and relaxed-MPSC queues against FIFO models. Non-trivial: a pop overlapped a push.',
     'C16': 'Ring buffer capacity 2/4/8 with pre-advanced indices. Non-trivial: >=2 threads with overlapping operations.',
     'C17': 'Threads push items and drain as worker when told to. Non-trivial: >=2 threads pushed.',
